@@ -203,7 +203,13 @@ def run_check(mod, tier, seed, workers=None, only_case=None):
         ctx.notes['determinism_recheck'] = {'cases_re_executed': len(again), 'mismatches': len(mismatches)}
         if mismatches:
             sys.stderr.write('re-execution of case %d gave another observation:\n  first : %s\n  second: %s\n' % mismatches[0])
-            raise HarnessError('re-executed cases gave different observations: nondeterminism not owned')
+            open_sigs = {k['sig'] for k in load_known() if k['property'] == mod.ID and k['status'] == 'known'}
+            if any(v['sig'] not in open_sigs for _c, v in ctx.violations):
+                # the code under test is already in violation, and state it keeps between cases (a process-wide switch, a cache) is a likely
+                # cause of both: report the violation (finish() re-executes it and insists that it reproduces) instead of giving up
+                sys.stderr.write('note: observations depend on what ran before in the process; reporting the violations found\n')
+            else:
+                raise HarnessError('re-executed cases gave different observations: nondeterminism not owned')
     if hasattr(mod, 'finalize') and only_case is None:
         mod.finalize(ctx)
     return finish(ctx, cases, time.time() - t0, only_case is not None)
